@@ -51,7 +51,7 @@ class _LocalManager:
 class Observation:
     __slots__ = ("outcomes", "okeys", "final", "final_key", "deadlock", "hang", "locked", "mutex_owned",
                  "trace", "points", "yield_points", "events", "followup", "harness_errors", "reader_values",
-                 "observer_findings", "cond_stats", "observer_stats")
+                 "observer_findings", "cond_stats", "observer_stats", "removal_findings")
 
 
 def outcome_key(op, out):
@@ -116,6 +116,34 @@ class ScenarioRunner:
         self._paths = dict(w._paths)
         self.start_abs = absstate.abstract(self.template, self.layout, self.scn.pids,
                                            [(p, f) for p in self.scn.pids for f in self.scn.fmts])
+
+    def removal_monitor(self, op):
+        """Invariant at a hook (C04): at the moment an object file is unlinked or renamed away from its
+        permanent address, no non-empty cid reference list may exist for it. Evaluated immediately before the
+        operation executes, i.e. on the state the removing thread acts on."""
+        if op.kind not in ("remove", "rename"):
+            return
+        root = self._root
+        src = op.path
+        if not src or not src.startswith(root + os.sep):
+            return
+        rel = src[len(root) + 1:].split(os.sep)
+        if rel[0] != "objects" or len(rel) < 2 or rel[1] == "tmp" or rel[-1].endswith("_delete"):
+            return
+        cid = "".join(rel[1:])
+        if self.layout.obj_rel(cid) != "/".join(rel):
+            return
+        with probe.suspended():
+            refs = os.path.join(root, *self.layout.cidref_rel(cid).split("/"))
+            try:
+                with open(refs, "rb") as fh:
+                    listed = fh.read()
+            except FileNotFoundError:
+                listed = b""
+        if listed.strip():
+            self._removal_findings.append(("object-removed-while-referenced",
+                                           {"object": cid, "cid_list": listed.decode("utf-8", "replace")[:200],
+                                            "operation": op.describe(root)}))
 
     def is_yield_op(self, op):
         root = self._root
@@ -183,8 +211,9 @@ class ScenarioRunner:
             return fn
 
         observer = self.observer_factory(self, store) if self.observer_factory else None
+        self._removal_findings = []
         sch = S.Scheduler([make(i) for i in idxs], chooser, self.rundir, is_yield_op=self.is_yield_op,
-                          observer=observer)
+                          observer=observer, pre_hook=self.removal_monitor)
         holder["s"] = sch
         probe.install()
         sch.run()
@@ -204,6 +233,7 @@ class ScenarioRunner:
         ob.mutex_owned = sorted({c.mutex.name for c in conds.values() if c.mutex.owner is not None})
         ob.cond_stats = {k: dict(c.stats) for k, c in conds.items()}
         ob.observer_findings = getattr(observer, "findings", []) if observer else []
+        ob.removal_findings = list(self._removal_findings)
         ob.observer_stats = (getattr(observer, "observations", 0), getattr(observer, "files_read", 0))
         ob.final = absstate.abstract(self.rundir, self.layout, scn.pids, [(p, f) for p in scn.pids for f in scn.fmts])
         ob.final_key = ob.final.key()
@@ -261,6 +291,8 @@ def judge(runner, ob, normalise=None):
         return probs
     if ob.locked or ob.mutex_owned:
         probs.append(("leaked-lock", {"lists": ob.locked, "mutexes": ob.mutex_owned}))
+    for f in ob.removal_findings:
+        probs.append(f)
     for f in ob.followup:
         probs.append(("follow-up-blocked", f))
     # linearizability against the sequential runs of the same code
